@@ -1,4 +1,5 @@
 (* C01 - Mnemonic encoding conforms to BIP39 for every entropy and language. *)
+From B39 Require Import Proofs.Calls.
 From B39 Require Import Lib.Base Lib.Sha256 Lib.TableWF Model.GenTypes Model.Model Spec.Bip39Spec.
 From B39 Require Import Proofs.Tables Proofs.Encode Proofs.Roundtrip Proofs.Examples.
 
@@ -21,6 +22,11 @@ Proof. exact sentence_shape. Qed.
 (* the hypotheses are satisfiable: English (value 2) and the all-zero entropy *)
 Example C01_nonvacuous : supported "English" 2 /\ valid_ent (length (repeat x00 16)).
 Proof. split; [unfold supported; cbn; tauto|cbn; tauto]. Qed.
+
+(* the functions this property is about, and every package function they reach, call only what the model
+   accounts for (closed world of callees, computed on coq/Gen/Calls.v, regenerated from the source every run) *)
+Theorem C01_callees : reach_ok "NewMnemonicByEntropy" = true /\ reach_ok "NewMnemonic" = true /\ reach_ok "fromEntropy" = true.
+Proof. exact calls_generator. Qed.
 
 Print Assumptions C01_encode.
 Print Assumptions C01_shape.
